@@ -32,7 +32,8 @@ META = {
 }
 
 OBSERVABLE = "connection-equations-solution-space"
-SHAPES = ["fresh", "extend-left-set", "extend-right-set", "merge", "redundant", "self-new", "self-old"]
+# "len0" = the empty connection graph (connectors present, no connect clause at all) must be in every family
+SHAPES = ["len0", "fresh", "extend-left-set", "extend-right-set", "merge", "redundant", "self-new", "self-old"]
 
 # ----------------------------------------------------------------------------------------------
 # rendering (trusted, no expected-value logic)
@@ -372,7 +373,7 @@ def configs(tier, seed):
             dict(cfg="Connect_hier.cfg", what="two-level family: <=2 clauses all, 3 clauses 1/16", hier=True, leaf=True,
                  fulllen=3, parts=[(seed % 16, 16)], need=SHAPES + ["hier", "strict-gap"]),
             dict(cfg="Connect_layouts.cfg", what="connector layouts: <=1 clause all, 2 clauses 1/8", hier=True, leaf=True,
-                 fulllen=2, parts=[(seed % 8, 8)], need=["fresh", "hier"]),
+                 fulllen=2, parts=[(seed % 8, 8)], need=["len0", "fresh", "hier"]),
         ]
     return [
         dict(cfg="Connect_quick.cfg", what="one-level family: ALL programs of <= 4 clauses", hier=False, leaf=False,
